@@ -1371,9 +1371,8 @@ class PolyhedralTermList(TermList):  # noqa: WPS338
         logging.debug(new_context_cons)
         logging.debug(objective)
         res = linprog(c=objective, A_ub=new_context_mat, b_ub=new_context_cons, bounds=(None, None), options=LP_OPTIONS)
-        if res["status"] in {2, 3}:
-            # unbounded
-            # return term.copy()
+        if res["status"] != 0:
+            # unbounded, infeasible, or the solver gave up: no bound to replace the variables with
             raise ValueError("Tactic 2 did not succeed")
         replacement = polarity * res["fun"]
         # replace the irrelevant variables with new findings in term
